@@ -253,6 +253,40 @@ def r_valid(prog, R, rid):
                     cn = full[2] if full else cs
                     if cn.get("callee") == "ares_str_isprint" and norm_cmp(c3, p3)[0] in ("false",):
                         w_print = True
+    # strings stored outside the character-string format (URI target): the parser validates them in place before ares_dns_rr_set_str_own
+    for f in sorted(prog.funcs.values(), key=lambda x: x.key):
+        if f.file != PARSE_C or not f.calls_to("ares_str_isprint"):
+            continue
+        for b, i, c in f.calls_to("ares_dns_rr_set_str_own"):
+            key = name_of_const(c["args"][1])
+            if key is None or key in pkeys:
+                continue
+            k = "key %s: writer enforces the parser's constraints" % key
+            wf = [(g, c2) for g in prog.funcs.values() if g.file == WRITE_C for _, _, c2 in g.calls_to("ares_dns_rr_get_str") if name_of_const(c2["args"][1]) == key]
+            if not wf:
+                r.broke("no writer for string key %s" % key)
+                continue
+            g, c2 = wf[0]
+            checks = False
+            for bb in g.blocks.values():
+                br = g.branch(bb)
+                if not br:
+                    continue
+                for pol in (True, False):
+                    tgt = br[1] if pol else br[2]
+                    if tgt is None or not any(e2["k"] == "ret" and name_of_const(e2.get("e")) not in (None, "ARES_SUCCESS") for e2 in g.blocks[tgt].els):
+                        continue
+                    for c3, p3 in atoms(br[0], pol):
+                        cs = strip(norm_cmp(c3, p3)[1])
+                        if cs is not None and cs.get("k") == "call":
+                            full = g.call_by_id(cs["id"]) if cs.get("ref") else None
+                            cn = full[2] if full else cs
+                            if cn.get("callee") == "ares_str_isprint" and norm_cmp(c3, p3)[0] == "false":
+                                checks = True
+            if checks:
+                r.ok(k, g.loc(c2["ln"]))
+            else:
+                r.viol(k, g.name, g.loc(c2["ln"]), "the parser accepts only printable characters for %s (%s checks ares_str_isprint), %s emits any byte: a record set up through the API is serialised successfully but the bytes do not parse back" % (key, f.name, g.name))
     for key, pc in sorted(pkeys.items()):
         writers = [(f, b, i, c) for f in prog.funcs.values() if f.file == WRITE_C for b, i, c in f.calls_to("ares_dns_write_rr_str") if name_of_const(c["args"][2]) == key]
         if not writers:
